@@ -14,7 +14,7 @@ RULE = ('Hypothesis draws modules with 5-40 declarations mixing all eleven decla
         'OBJECT-IDENTITY, MODULE-IDENTITY, OBJECT-TYPE scalar/table/row/column, NOTIFICATION-TYPE, TRAP-TYPE, '
         'OBJECT-GROUP, NOTIFICATION-GROUP, MODULE-COMPLIANCE, AGENT-CAPABILITIES, type / TEXTUAL-CONVENTION) '
         'with pairwise-distinct names and OIDs, genTexts on and off. Non-trivial: a module with >= 8 symbols of '
-        '>= 4 kinds. Distinct = hash of the model.')
+        '>= 4 kinds. Distinct = hash of the model. A quarter of the sets carries texts full of characters JSON must escape.')
 ASSUMPTIONS = [
     'SEQUENCE row types, MACRO and CHOICE definitions are exempt from "one entry per declared symbol"',
     'hyphen -> underscore is the customary name mapping; the "name" member may be either spelling',
